@@ -4041,8 +4041,8 @@ func (ce *callEngine) callNativeFunc(ctx context.Context, m *wasm.ModuleInstance
 			if offset%4 != 0 {
 				panic(wasmruntime.ErrRuntimeUnalignedAtomic)
 			}
-			// Just a bounds check
-			if offset >= memoryInst.Size() {
+			// Just a bounds check: not with Size(), which is 0 for a memory of 65536 pages.
+			if uint64(offset) >= uint64(len(memoryInst.Buffer)) {
 				panic(wasmruntime.ErrRuntimeOutOfBoundsMemoryAccess)
 			}
 			res := memoryInst.Notify(offset, uint32(count))
